@@ -4,6 +4,7 @@
 //! and forward them through AnyTLS Stream
 
 use crate::client::Client;
+use crate::protocol::{Command, Frame};
 use crate::util::{AnyTlsError, Result};
 use std::net::{IpAddr, Ipv4Addr, Ipv6Addr};
 use std::sync::Arc;
@@ -239,6 +240,10 @@ async fn handle_socks5_connection(
             );
         }
 
+        // The proxied side has finished (end of stream or error): pass the end of
+        // stream on to the application
+        let _ = client_write.shutdown().await;
+
         tracing::debug!(
             "[SOCKS5-Task1] Task completed for stream {} after {} iterations",
             stream_id,
@@ -331,6 +336,12 @@ async fn handle_socks5_connection(
                 }
             }
         }
+        // The application has finished sending: tell the peer with a FIN. It is written
+        // by this task after all of its data frames, so it cannot overtake them.
+        let _ = session_for_write
+            .write_control_frame(Frame::control(Command::Fin, stream_id))
+            .await;
+
         tracing::debug!(
             "[SOCKS5-Task2] Task2 (client->proxy) finished for stream {} after {} iterations",
             stream_id,
